@@ -833,6 +833,8 @@ fn main() {
             e.note_removed(&before);
             lines.push(e.render_store());
             lines.push(e.render_reg());
+            let (_, c, q) = e.world.as_ref().unwrap().verif_pending();
+            lines.push(format!("pend res={c} queue={q}"));
             if snap {
                 for l in e.world.as_ref().unwrap().verif_snapshot().lines() {
                     lines.push(format!("snap {l}"));
